@@ -101,6 +101,13 @@ func executeCompaction(db *DB) (compactionMetadata *proto.CompactionMetadata, er
 
 	var readers []sstables.SSTableReaderI
 	var iterators []sstables.SSTableMergeIteratorContext
+	// registered before the first table is opened: a failure half way through releases the tables opened so far
+	defer func() {
+		for _, reader := range readers {
+			err = errors.Join(err, reader.Close())
+		}
+	}()
+
 	for i := 0; i < len(paths); i++ {
 		reader, err := sstables.NewSSTableReader(
 			sstables.ReadBasePath(paths[i]),
@@ -110,20 +117,15 @@ func executeCompaction(db *DB) (compactionMetadata *proto.CompactionMetadata, er
 			return nil, err
 		}
 
+		readers = append(readers, reader)
+
 		scanner, err := reader.Scan()
 		if err != nil {
 			return nil, err
 		}
 
-		readers = append(readers, reader)
 		iterators = append(iterators, sstables.NewMergeIteratorContext(i, scanner))
 	}
-
-	defer func() {
-		for _, reader := range readers {
-			err = errors.Join(err, reader.Close())
-		}
-	}()
 
 	// tombstones may only be dropped when no older table can still hold a value for the key
 	reduceFunc := reduceLatestWinsKeepTombstones
@@ -185,14 +187,15 @@ func saveCompactionMetadata(writeFolder string, compactionMetadata *proto.Compac
 	if err != nil {
 		return err
 	}
+	// the writer owns its file from here on, also when Open fails
+	defer func() {
+		err = errors.Join(err, metaWriter.Close())
+	}()
+
 	err = metaWriter.Open()
 	if err != nil {
 		return err
 	}
-
-	defer func() {
-		err = errors.Join(err, metaWriter.Close())
-	}()
 
 	_, err = metaWriter.Write(compactionMetadata)
 	if err != nil {
